@@ -840,6 +840,10 @@ func (tt *TermTable) IntToFloat(cfg FloatCfg, a *Term, signed bool) *Term {
 	if cfg.Dom == SReal {
 		if s := tt.shadowOf(a); s.ok && (signed || s.lo >= 0) {
 			return tt.mk("to_real", SReal, 0, s.iv)
+		} else if s.ok && a.w <= 50 {
+			// unsigned reading of a value whose signed reading may be negative
+			u := tt.Ite(tt.mk("<", SBool, 0, s.iv, tt.IntC(0)), tt.mk("+", SInt, 0, s.iv, tt.IntC(int64(1)<<uint(a.w))), s.iv)
+			return tt.mk("to_real", SReal, 0, u)
 		}
 		n := tt.mk("bv2nat", SInt, 0, a)
 		if signed {
